@@ -62,7 +62,7 @@ def r3_builders_excluded_or_private(ctx):
                 if recv is None:
                     continue
                 # only receivers that are the function object: self inside the class, or a closure variable of the trampoline
-                if (f.cls is oc and recv == recv_name(f)) or (f.parent is not None and f.parent.module is oc.module and recv in f.parent.params)):
+                if (f.cls is oc and recv == recv_name(f)) or (f.parent is not None and f.parent.module is oc.module and recv in f.parent.params):
                     sites.append((f, n))
     ctx.require(sites, "no call site of the lazy build found")
     locked_sites = 0
